@@ -1,4 +1,4 @@
-\* C20 / NativeRT.tla -- thorough: ALL histories of <= 4 steps
+\* C20 / NativeRT.tla -- thorough: ALL histories of <= 3 steps over more initial lengths and both values
 \* The constants InitialCapacity and Growth are NOT in this file: harness/props/c20.py extracts them
 \* from src/runtime/{dyn_array,list_int,list_string}.c and appends them (for a manual run add
 \*   CONSTANTS InitialCapacity = 8  Growth = 2).
@@ -7,10 +7,10 @@ SPECIFICATION Spec
 CONSTANTS
   Family = "list"
   Kinds = {"list_int"}
-  Prefills = {0, 7}
+  Prefills = {0, 7, 8}
   InitCaps = {0, 103}
   Vals = {1, 2}
-  MaxLen = 4
+  MaxLen = 3
   MaxObj = 1
   EmitMode = "final"
   StopAtDev = TRUE
